@@ -798,7 +798,7 @@ Qed.
 Lemma good_scalar_len : forall ps x, good ps x = true ->
   forallb scalar (render ps) = true /\ (length (toks ps) <= length (render ps))%nat.
 Proof.
-  induction ps as [|q ps IH]; intros x H; [split; [reflexivity | cbn; lia]|].
+  induction ps as [|q ps IH]; intros x H; [split; [reflexivity | cbn [toks render flat_map length]; lia]|].
   cbn [good] in H. rewrite !andb_true_iff in H. destruct H as [[Hq _] Hg].
   destruct (IH x Hg) as [IH1 IH2]. destruct (piece_scalar_len q Hq) as [H1 H2].
   change (render (q :: ps)) with (render1 q ++ render ps).
